@@ -207,16 +207,27 @@ pub fn gen_compress_message(src: &mut Src) -> (Message, &'static str) {
         _ => {
             // names beyond offset 16383 (filler first)
             tag = "beyond-16383";
-            for s in ["far.example.org", "x.far.example.org", "example.org", "y.x.far.example.org"] {
+            // names[0..3] may appear before the filler; the others are first seen beyond it, so that fresh
+            // dictionary entries are created around offset 16384 and then re-used
+            for s in ["far.example.org", "x.far.example.org", "example.org", "late.test", "a.late.test", "other.invalid", "b.a.late.test"] {
                 names.push(Name::from_dotted(s));
             }
         }
     }
-    let qn = if src.chance(128) { names[0].clone() } else { src.pick(&names).clone() };
+    let qn = if fam == 5 {
+        names[src.below(3)].clone()
+    } else if src.chance(128) {
+        names[0].clone()
+    } else {
+        src.pick(&names).clone()
+    };
     m.qd.push(Question { name: qn, qtype: 1, qclass: 1 });
     if fam == 5 {
-        let size = *src.pick(&[16400usize, 17000, 30000]);
-        m.an.push(Record { owner: names[2].clone(), rtype: T_TXT, class: 1, ttl: 1, rdata: Rdata::Opaque(vec![0xc0; size]) });
+        names.drain(0..3);
+        // half of the time aim at the pointer-reach boundary itself: names starting at 16383/16384/16385
+        let size = if src.chance(128) { src.range(16_280, 16_400) } else { *src.pick(&[16400usize, 17000, 30000]) };
+        let fo = m.qd[0].name.clone();
+        m.an.push(Record { owner: fo, rtype: T_TXT, class: 1, ttl: 1, rdata: Rdata::Opaque(vec![0xc0; size]) });
     }
     // in-order pass (so that nesting builds up), then random repeats
     let in_order = src.chance(200);
@@ -343,6 +354,16 @@ fn c06_case(data: &[u8], st: &mut Stats) -> PResult {
     if d.all_name_infos().iter().any(|n| n.start > 16383) {
         st.class("name-beyond-16383");
     }
+    if let Ok(Ok(out)) = catch(|| Compress::compress(&u).map_err(|e| e.to_string())) {
+        if let Some(d2) = refdec::decode_strict(&out) {
+            if d2.all_name_infos().iter().any(|n| n.start == 16384) {
+                st.class("output-name-at-16384");
+            }
+            if d2.all_name_infos().iter().any(|n| n.start == 16383) {
+                st.class("output-name-at-16383");
+            }
+        }
+    }
     if st.frozen || st.count("pointer-after-shortening") > before {
         st.nontrivial(&u);
         let cls = format!("family:{}", tag);
@@ -413,6 +434,8 @@ pub fn check_c06(ctx: &Ctx, known: &KnownFindings) -> Report {
         "distinct-suffixes>32",
         "suffix>127",
         "name-beyond-16383",
+        "output-name-at-16384",
+        "output-name-at-16383",
         "opt:First",
         "opt:Middle",
         "opt:Last",
